@@ -106,3 +106,75 @@ LEVEL['C16'] = dict(
          'squared are the eigenvalues of the horizontal block, orientation is an eigenvector bearing, singular blocks give '
          'minor axis 0; relative error is the ellipse of Rᵀ(V1+V2−C−Cᵀ)R; coverage-factor table logic and monotonicity.',
     note=PARTIAL + 'Here: the t-quantile values (scipy comparison only) and binary64 rounding.' + TRUST)
+
+HOOKS['source_commits'] = ['cefc354']
+
+LEVEL['C06'] = dict(
+    technique='Lean 4 theorems over the regenerated model (conform7 = Helmert similarity formula exactly, exact second-order round-trip residual and catalogue-wide bounds by kernel-checked arithmetic, Jacobian and J Q Jᵀ with Mathlib PosSemidef) + translator validation',
+    text='Machine-checked for all inputs: conform7 equals t + (1+s)·R·x with the Australian rotation convention exactly in real '
+         'arithmetic and never raises; apply-then-negate residual is the explicit second-order expression, bounded below '
+         '1e-5 m for every shipped set except the 12 AGD sets (below 2e-3 m) over the whole regenerated catalogue; the code\'s '
+         'j_mat is the Jacobian of the formula in the q_mat variable order, the returned covariance is J Q Jᵀ, symmetric and '
+         'PSD whenever the input is, returned iff a covariance is supplied and the set carries uncertainties.',
+    note=PARTIAL + 'Here: only binary64 rounding separates the code from the formula (search: 50-digit oracle, 1 µm).' + TRUST)
+LEVEL['C07'] = dict(
+    technique='Lean 4 theorems over the regenerated model (__add__ advances each parameter by rate·days/365.25 then rounds to 8 places, perturbation lemma for the rounding, reference-epoch reduction over the whole catalogue, ATRF identity and mutual-inverse bound) + translator validation',
+    text='Machine-checked: conform14 is conform7 of the re-referenced set; each advanced parameter is round₈(par + rate·Δ) with '
+         'Δ = days/365.25, no clamp before the epoch; distance to the formula with exactly advanced parameters ≤ 2e-6 m for '
+         '|x| ≤ 1e7; at the reference epoch it reduces to conform7 for every catalogue set; set then negation at the same '
+         'epoch has the C06 residual; ATRF wrappers are conform14 with the plate-motion set and its negation, exactly the '
+         'identity at 2020-01-01 and mutual inverses within 2.4e-6 m for 1980–2060.',
+    note=PARTIAL + 'Here: binary64 rounding share of the 2 µm (search).' + TRUST)
+LEVEL['C11'] = dict(
+    technique='Lean 4 kernel evaluation (decide, no native_decide) over the complete regenerated rational catalogue: labels, 59 reverse pairs, 384 ITRF chain triples computed inside the statement; universal theorems for __neg__, __add__, iers2trans',
+    text='Machine-checked over the COMPLETE catalogue regenerated from constants.py as exact rationals: 120 sets, every name '
+         'matches its labels, every reverse pair is the exact negation with equal epoch and swapped labels, all 384 ITRF '
+         'chain triples close within 0.15 mm / 0.015 ppb / 0.015 mas (and per year; rates close exactly) at any common epoch; '
+         're-referencing keeps labels and rates for every set and date; iers2trans is ÷1000 with rotation signs reversed, '
+         'exactly for inputs with ≤ 5 decimals; epoch-less sets have zero rates.',
+    note='Complete proof for the finite table (no sampling). Not covered: agreement with the published IERS values (offline). '
+         'Trusted: Lean kernel, translator (catalogue compared bit for bit with vars(geodepy.constants) on every run).')
+LEVEL['C09'] = dict(
+    technique='Lean 4 decide over a static effect table regenerated from the six modules (no write reaches a parameter, global or alias; self writes only in __init__) + abstract purity model (history/schedule independence by induction) + dynamic validation of the table with a guarded write hook, deep snapshots and threads',
+    text='Machine-checked: in the regenerated effect table of all 58 library functions every write targets a freshly created '
+         'local object or self inside __init__; in the abstract model any system of pure steps is history independent and '
+         'independent of thread interleaving (induction over call lists and merges). The table is validated against the '
+         'running code on every run: hook log of writes to shipped constants, bitwise snapshots of 173 module-level '
+         'bindings and of every mutable argument, repeated-call equality, 2–8 threads.',
+    note='PARTIAL: the soundness of the syntactic effect analysis under aliasing ("effect-free ⇒ pure step") is an assumption '
+         'checked dynamically, not proved; CPython/numpy/BLAS thread safety is outside the model; schedules are sampled. '
+         'Hook: guarded block at the end of constants.py (GEODEPY_VERIF=1).')
+LEVEL['C08'] = dict(
+    technique='Lean 4 theorems at ℚ over one generic hand model of angles.py (exact field decomposition, HP validity incl. carries, chains of any length by induction) + correspondence of the Float instance with the real code, exhaustive over the whole-arc-second lattice in the thorough tier',
+    text='Machine-checked in exact arithmetic about the model whose Float instance is compared bit for bit with angles.py: '
+         'dec→DMS/DDM fields in range and exact, sign kept in (−1°, 0); hp2dec accepts exactly valid fields and is exact; '
+         'dec2hp output is valid HP (minute→degree carry) and reads back within 0.5e-9″ (0.5e-8″ from 512°); HPAngle accepts '
+         'iff valid; gradians exact; constructor sign inference; any well-typed chain of conversions denotes the same angle '
+         'within len·0.5e-8″ with the same sign.',
+    note='PARTIAL: the 1e-8″ bound for all doubles in [−720, 720] (binary64 error analysis) is not proved — exhaustive on the '
+         '2 592 000-point lattice (thorough) and searched elsewhere. Hand model: trusted via correspondence.')
+LEVEL['C12'] = dict(
+    technique='Lean 4 theorems at ℚ over the generic angle-object model (each operator vs decimal-degree arithmetic, comparisons, rounding, modulo, induction over expression trees with an explicit error recursion) + node-by-node correspondence on random expression trees',
+    text='Machine-checked at ℚ: + − (both reflected forms), × and ÷ by a number, unary −, abs give the decimal-degree result '
+         'with the class of the left operand (exact except one HP rounding per HP-class node); comparisons agree with decimal '
+         'degrees; rounding within half a unit; DMS/DDM modulo; any expression tree evaluates within the error recursion errB '
+         '(flat (#nodes)·0.5e-9″ under a no-amplification hypothesis).',
+    note='PARTIAL: binary64 accumulation per node is covered by search and correspondence, not proved; the flat bound of the '
+         'plan is false in general (multipliers scale errors) and is replaced by errB. Hand model: trusted via correspondence.')
+LEVEL['C17'] = dict(
+    technique='Lean 4 theorems over a hand model of ntv2reader.py generic in its arithmetic (bilinear blend, Hermite/bi-quadratic reproduction with the code\'s cinv by decide/ring, byte-offset induction, exact node addressing of the executed seek/read sequence, finest sub-grid for any iteration order) + bitwise correspondence on synthetic grid files',
+    text='Machine-checked: bilinear is the exact blend of the four nodes the code reads, reproduces node values and linear '
+         'fields; bicubic (code\'s 16×16 cinv = inverse Hermite basis over ℤ) reproduces node values, linear and bi-quadratic '
+         'fields where its stencil fits; the executed seeks/reads return exactly the 4 / 16 nodes of the selected sub-grid '
+         '(stencil inside iff 1 ≤ row ≤ nrows−3 ∧ 1 ≤ col ≤ ncols−3, else bilinear); row/col/num_cols arithmetic over ℚ; '
+         'data offsets by induction; finest containing sub-grid for any set order; outside ⇒ None / ValueError; shift signs.',
+    note='PARTIAL: binary64 evaluation and header decoding are covered by correspondence only. Known finding: bi-quadratic '
+         'fields are not reproduced in the outermost ring (bilinear fallback). Hand model: trusted via correspondence.')
+LEVEL['C18'] = dict(
+    technique='Lean 4 refinement theorems over a kernel-evaluable hand model of the SINEX editors (model ∘ render = render ∘ abstract operation, byte-exact, by induction over lines/rows) + byte-level correspondence with gnss.py on generated files and clocks',
+    text='Machine-checked over all well-formed abstract solutions and all clocks: remove_stns writes exactly the rendering of '
+         'the solution with the stations removed (estimates kept in order and renumbered, covariance = sub-matrix in the same '
+         'triangle, header count, 12-character stamp with seconds 00000–86399, every block closed on its own line, %ENDSNX); '
+         'remove_matrixzeros writes the rendering without all-zero lines; remove_velocity header/estimates/site/epoch parts.',
+    note='PARTIAL: the matrix part of remove_velocity and the three readers are proved for evaluated instances only; universal '
+         'coverage of those is by correspondence and search. Hand model: trusted via correspondence (output bytes).')
